@@ -1,4 +1,5 @@
 from itertools import count
+import math
 import networkx as nx
 import flowpaths.utils as utils
 # NOTE: Do NOT import flowpaths.stdigraph at module import time to avoid a circular
@@ -207,8 +208,13 @@ def min_cost_flow(G: nx.DiGraph, s, t, demands_attr = 'l', capacities_attr = 'u'
 
     flowNetwork = nx.DiGraph()
 
-    flowNetwork.add_node(s, demand=-bigNumber)
-    flowNetwork.add_node(t, demand=bigNumber)
+    # the supply must be able to satisfy all edge demands at once
+    try:
+        supply = max(bigNumber, math.ceil(sum(G[x][y][demands_attr] for x, y in G.edges())) + 1)
+    except (TypeError, ValueError, OverflowError):
+        supply = bigNumber
+    flowNetwork.add_node(s, demand=-supply)
+    flowNetwork.add_node(t, demand=supply)
 
     for v in G.nodes():
         if v != s and v != t:
